@@ -82,6 +82,14 @@ where
     /// Remove redundant constraints from the store
     pub fn normalize(self) -> ConstraintStore<U, E> {
         let mut normalized_store = ConstraintStore::new();
+        #[cfg(feature = "verif")]
+        if crate::verif::chooser_installed() {
+            let _scope = crate::verif::scope("normalize");
+            for storec in self.into_iter() {
+                normalized_store.push_and_normalize(storec);
+            }
+            return normalized_store;
+        }
         for storec in self.0.into_iter() {
             normalized_store.push_and_normalize(storec.into());
         }
@@ -89,10 +97,22 @@ where
     }
 
     pub fn iter(&self) -> impl Iterator<Item = &Rc<dyn Constraint<U, E>>> + '_ {
+        #[cfg(feature = "verif")]
+        {
+            let items: Vec<&Rc<dyn Constraint<U, E>>> = self.0.iter().collect();
+            crate::verif::order(items, |c| crate::verif::constraint_key(*c)).into_iter()
+        }
+        #[cfg(not(feature = "verif"))]
         self.0.iter()
     }
 
     pub fn into_iter(self) -> impl Iterator<Item = Rc<dyn Constraint<U, E>>> {
+        #[cfg(feature = "verif")]
+        {
+            let items: Vec<Rc<dyn Constraint<U, E>>> = self.0.into_iter().collect();
+            crate::verif::order(items, |c| crate::verif::constraint_key(c)).into_iter()
+        }
+        #[cfg(not(feature = "verif"))]
         self.0.into_iter()
     }
 
